@@ -1,5 +1,6 @@
 """Poker properties C01, C03, C04, C07, C13 over traces of the real betting engine vs the Lean model."""
 from fractions import Fraction
+import random as random_mod
 from . import core, poker
 from .engine import Prop, Verdict
 
@@ -420,3 +421,289 @@ class C13(PokerProp):
             case["runouts"] = 3
         pol = rng.choice(["minraise", "allin", "caller", "checkcall", "random", "potty"])
         return poker.play(rng, case, probes_per_state=self.probes, policy=pol)
+
+
+# ------------------------------------------------------------------------------------------------ C07
+
+class C07(PokerProp):
+    pid = "C07"
+    title = "showdown: tiers by true strength, payouts = side-pot settlement under that ranking averaged over run-outs; fold-outs"
+    fields = ("pay", "rake", "board", "deck", "complete")
+    compare_results = False
+    probes = 0
+    batch = 30
+    rule = ("hands steered to showdown / all-in run-outs (1-3 run-outs, injected samples) / fold-outs on every street, tie-prone "
+            "decks, side pots, folded seats between contenders, rake; non-trivial = completed hand with >= 2 contenders; "
+            "distinct by (config, actions)")
+
+    def setup(self):
+        super().setup()
+
+    def gen_case(self, rng):
+        case = poker.gen_cfg(rng, self.scope)
+        pol = rng.choice(["checkcall", "caller", "allin", "allin", "random", "folder", "potty"])
+        return poker.play(rng, case, probes_per_state=0, policy=pol)
+
+    def impl(self, case):
+        """as PokerProp.impl, but additionally records every board the evaluator was shown"""
+        import card_utils.games.poker.community.holdem.game_state as hgs
+        import card_utils.games.poker.community.omaha.game_state as ogs
+        seen = []
+        orig = {}
+        for mod in (hgs, ogs):
+            f = mod.get_best_hands_fast
+            orig[mod] = f
+
+            def wrap(board, hands, _f=f):
+                seen.append([list(board), [list(h) for h in hands]])
+                return _f(board=board, hands=hands)
+            mod.get_best_hands_fast = wrap
+        try:
+            rec, g = poker.run_ops(case)
+        finally:
+            for mod, f in orig.items():
+                mod.get_best_hands_fast = f
+        rec["boards_seen"] = seen
+        return rec
+
+    def oracle(self, case, evs):
+        # payouts are determined uniquely by the rules (C02/C05/C06 theorems): the comparison with the model on
+        # pay / rake IS the judgement; here: structural facts about the run-out boards and fold-outs
+        return []
+
+    def judge(self, case, io, mo):
+        evs = walk(case, io, mo)
+        cw = self.correspondence(case, evs)
+        ow = []
+        hole = {c for h in case["hands"] for c in h}
+        for b, hands in io.get("boards_seen", []):
+            if len(b) != 5 or len(set(b)) != 5 or set(b) & hole:
+                ow.append(f"the evaluator was shown board {b}: not five distinct cards disjoint from the hole cards"); break
+        acts = [e for e in evs if e.kind == "act" and e.ri == "ok"]
+        if acts and acts[-1].oi["complete"]:
+            o = acts[-1].oi
+            nf = [p for p in range(case["n"]) if o["last"][p] != "FOLD"]
+            if len(nf) == 1:
+                if io.get("boards_seen"):
+                    ow.append("a hand won by folds consulted the evaluator")
+                flop = len(o["board"]) >= 3
+                if not flop and o["rake"] is not None and sum(o["rake"]) != 0:
+                    ow.append(f"fold-out before the flop was raked: {o['rake']}")
+                if o["pay"] is not None and o["rake"] is not None:
+                    exp = sum(o["pot"]) - sum(o["rake"])
+                    if not core.close(o["pay"][nf[0]], exp) or any(abs(o["pay"][p]) > 1e-9 for p in range(case["n"]) if p != nf[0]):
+                        ow.append(f"fold-out: payouts {o['pay']}, expected the whole pot {exp} to seat {nf[0]}")
+            # a payout disagreement with the (proved) model is a violation of the property itself
+            if cw and any(("pay:" in w or "rake:" in w) for w in cw):
+                ow.append("payouts differ from the settlement of the final contributions under the true ranking: " + cw[0][:400])
+        key, tags = self.key_tags(case, evs)
+        if not (acts and acts[-1].oi["complete"]):
+            key = None
+        if io.get("boards_seen") and len(io["boards_seen"]) > 1:
+            tags = list(tags) + [f"runouts={len(io['boards_seen'])}"]
+        return Verdict(not cw, not ow, "; ".join([w[:600] for w in ow[:4] + cw[:2]]), key, tags)
+
+
+# ------------------------------------------------------------------------------------------------ C15
+
+REBUILD_FIELDS = ("stacks", "pot", "street", "action", "board", "deck", "complete", "pay", "log")
+
+
+def same_obs(a, b, fields):
+    out = []
+    for f in fields:
+        x, y = a.get(f), b.get(f)
+        if f in ("pay", "rake", "pnl") and x is not None and y is not None and x != "!" and y != "!":
+            ok = len(x) == len(y) and all(core.close(u, v) for u, v in zip(x, y))
+        else:
+            ok = x == y
+        if not ok:
+            out.append(f"{f}: {x!r} vs {y!r}")
+    return out
+
+
+class C15(PokerProp):
+    pid = "C15"
+    title = "replay from the action log, idempotent re-application, resume from serialisable fields"
+    batch = 25
+    probes = 0
+    rule = ("random traces cut at a random point (also at completion): (a) rebuilt with from_action_dicts, (b) log re-applied "
+            "1-3 times to the same object, (c) resumed through the constructor from stacks/pot/street/action/last actions/"
+            "board/deck and continued with the same actions and probes; non-trivial = cut after >= 2 actions")
+
+    def gen_case(self, rng):
+        case = poker.gen_cfg(rng, self.scope)
+        poker.play(rng, case, probes_per_state=0)
+        ops = case["ops"]
+        k = rng.choice([len(ops), len(ops), rng.randrange(0, len(ops) + 1)]) if ops else 0
+        case["cut"] = k
+        case["resets"] = rng.choice([1, 2, 3])
+        # continuation: the remaining real actions, each preceded by two probes
+        cont = []
+        prng = random_mod.Random(rng.random())
+        for o in ops[k:]:
+            q, t, a = o["o"]
+            cont.append({"o": [q, prng.choice(poker.TYPES), prng.choice([None, 0, 1, 2, a, (a or 0) + 1])], "probe": True})
+            cont.append({"o": [(q + 1) % case["n"], t, a], "probe": True})
+            cont.append(o)
+        cont.append({"o": [0, "CHECK", None], "probe": True})
+        case["cont"] = cont
+        return case
+
+    def impl(self, case):
+        out = {}
+        k = case["cut"]
+        base = {**case, "ops": case["ops"][:k]}
+        rec, g = poker.run_ops(base)
+        out["orig"] = rec
+        if g is None or any(st["r"] != "ok" for st in rec["steps"]):
+            return out
+        S = poker.observe(g)
+        out["S"] = S
+        log = [{"player": a.player, "action": a.action, "amount": a.amount} for a in g.actions]
+        cls = poker.classes()[case["game"]]
+        # (a) replay
+        try:
+            fake = poker.FakeRandom(*case.get("samp", [0, 0])); poker.install_sampler(fake)
+            kw = poker.cfg_kwargs(case)
+            g2 = cls.from_action_dicts(num_players=kw["num_players"], deck=kw["deck"], hands=kw["hands"],
+                                       starting_stacks=kw["starting_stacks"], boards=kw["boards"], ante=kw["ante"],
+                                       blinds=kw["blinds"], action_dicts=[dict(d) for d in log],
+                                       all_in_runouts=kw["all_in_runouts"], rake_fraction=kw["rake_fraction"], max_rake=kw["max_rake"])
+            out["replay"] = poker.observe(g2)
+        except Exception as e:
+            out["replay"] = {"exc": f"{type(e).__name__}: {str(e)[:100]}"}
+        # (b) reset 1..r times on a copy of the object itself
+        import copy
+        g3 = copy.deepcopy(g); g3._cv_fake = copy.copy(g._cv_fake)
+        out["reset"] = []
+        for _ in range(case["resets"]):
+            try:
+                poker.install_sampler(g3._cv_fake)
+                g3.reset_state_from_action_dicts([dict(d) for d in log])
+                out["reset"].append(poker.observe(g3))
+            except Exception as e:
+                out["reset"].append({"exc": f"{type(e).__name__}: {str(e)[:100]}"}); break
+        # (c) resume from serialisable fields, then the same continuation on both
+        try:
+            fake = poker.FakeRandom(*case.get("samp", [0, 0])); poker.install_sampler(fake)
+            kw = poker.cfg_kwargs(case)
+            g4 = cls(num_players=kw["num_players"], deck=list(g.deck), starting_stacks=kw["starting_stacks"], hands=kw["hands"],
+                     boards=[list(g.boards[0])], ante=kw["ante"], blinds=list(g.blinds), stacks=list(g.stacks), action=g.action,
+                     street=g.street, actions=list(g.actions), last_actions=dict(g.last_actions),
+                     pot_balances=dict(g.pot.balances), all_in_runouts=kw["all_in_runouts"],
+                     rake_fraction=kw["rake_fraction"], max_rake=kw["max_rake"])
+            g4._cv_fake = fake
+            out["resume0"] = poker.observe(g4)
+        except Exception as e:
+            out["resume0"] = {"exc": f"{type(e).__name__}: {str(e)[:100]}"}
+            g4 = None
+
+        def transcript(obj):
+            tr = []
+            for o in case["cont"]:
+                tgt = obj
+                if o.get("probe"):
+                    tgt = copy.deepcopy(obj); tgt._cv_fake = copy.copy(obj._cv_fake)
+                r, e = poker.apply_op(tgt, o["o"])
+                st = {"r": r}
+                if r == "ok":
+                    st["s"] = poker.observe(tgt)
+                tr.append(st)
+                if r == "internal" and not o.get("probe"):
+                    break
+            return tr
+        out["cont_orig"] = transcript(g)
+        out["cont_resume"] = transcript(g4) if g4 is not None else None
+        return out
+
+    def request(self, case, io):
+        k = case["cut"]
+        reqs = [poker.request({**case, "ops": case["ops"][:k]})]
+        S = io.get("S")
+        if S is not None:
+            log = S["log"]
+            reqs.append(poker.request({**case, "ops": [], "pre": log}))
+            reqs.append(poker.request({**case, "ops": case["ops"][:k] + [{"k": "reset", "log": log}] * case["resets"]}))
+            if not S["complete"] and S["action"] is not None:
+                n = case["n"]
+                blinds = case["blinds"]
+                reqs.append(poker.request({**case, "deck": S["deck"], "board": S["board"], "ops": case["cont"],
+                                           "resume": {"stacks": S["stacks"], "pot": S["pot"], "street": S["street"],
+                                                      "action": S["action"], "last": S["last"], "log": S["log"]}}))
+        return {"op": "multi", "reqs": reqs}
+
+    def judge(self, case, io, mo):
+        why_c = []; why_o = []
+        k = case["cut"]
+        base = {**case, "ops": case["ops"][:k]}
+        evs = walk(base, io["orig"], mo[0])
+        self.fields = ALL_FIELDS
+        why_c += self.correspondence(base, evs)
+        S = io.get("S")
+        tags = [case["game"], f"n={case['n']}"]
+        key = None
+        if S is not None:
+            tags.append("cut:complete" if S["complete"] else "cut:open")
+            # (a) replay
+            rp = io["replay"]
+            if "exc" in rp:
+                why_o.append(f"replaying the log of {len(S['log'])} actions failed: {rp['exc']}")
+            else:
+                d = same_obs(S, rp, REBUILD_FIELDS)
+                if d:
+                    why_o.append("hand rebuilt from its log differs: " + "; ".join(d[:3]))
+                if len(mo) > 1 and "err" not in mo[1]["ctor"]:
+                    d = diff_obs(rp, mo[1]["ctor"], REBUILD_FIELDS)
+                    if d:
+                        why_c.append("replay: " + "; ".join(d[:3]))
+            # (b) reset
+            for i, rs in enumerate(io["reset"]):
+                if "exc" in rs:
+                    why_o.append(f"re-applying the log (time {i + 1}) failed: {rs['exc']}"); break
+                d = same_obs(S, rs, REBUILD_FIELDS)
+                if d:
+                    why_o.append(f"re-applying the log {i + 1}x to the same object gives a different state: " + "; ".join(d[:3])); break
+                if len(mo) > 2 and k + i < len(mo[2]["steps"]) and "s" in mo[2]["steps"][k + i]:
+                    d = diff_obs(rs, mo[2]["steps"][k + i]["s"], REBUILD_FIELDS)
+                    if d:
+                        why_c.append(f"reset {i + 1}: " + "; ".join(d[:3])); break
+            # (c) resume
+            co, cr = io["cont_orig"], io["cont_resume"]
+            dev = []
+            r0 = io["resume0"]
+            if "exc" in r0 or cr is None:
+                dev.append(f"constructing from the serialisable fields failed: {r0.get('exc')}")
+            else:
+                d = same_obs(S, r0, ("stacks", "pot", "street", "action", "board", "deck", "last", "toCall", "minBet", "maxBet", "valid"))
+                if d:
+                    dev.append("resumed object differs at once: " + "; ".join(d[:3]))
+                for i, (a, b) in enumerate(zip(co, cr)):
+                    if a["r"] != b["r"]:
+                        dev.append(f"continuation step {i} {case['cont'][i]['o']}: original {a['r']}, resumed {b['r']}"); break
+                    if "s" in a:
+                        d = same_obs(a["s"], b["s"], ("stacks", "pot", "street", "action", "board", "deck", "last", "complete", "pay", "rake"))
+                        if d:
+                            dev.append(f"continuation step {i}: " + "; ".join(d[:3])); break
+                if len(co) != len(cr):
+                    dev.append("continuations have different lengths")
+            if dev:
+                tag = "[dev:C15.resume_completed_state] " if S["complete"] else ""
+                why_o.append(tag + dev[0])
+            if len(mo) > 3 and cr is not None and "err" not in mo[3]["ctor"]:
+                msteps = mo[3]["steps"]
+                for i, b in enumerate(cr):
+                    if i >= len(msteps):
+                        break
+                    if b["r"] != poker.model_result(msteps[i]["r"]):
+                        why_c.append(f"resume continuation step {i}: impl {b['r']} model {msteps[i]['r']}"); break
+                    if "s" in b and "s" in msteps[i]:
+                        d = diff_obs(b["s"], msteps[i]["s"], ("stacks", "pot", "street", "action", "board", "deck", "last", "complete", "pay", "rake"))
+                        if d:
+                            why_c.append(f"resume continuation step {i}: " + "; ".join(d[:3])); break
+            if len(S["log"]) >= 2:
+                key = core.stable_hash([case["game"], case["stacks"], case["ante"], case["blinds"], S["log"], case["resets"]])
+        return Verdict(not why_c, not why_o, "; ".join([w[:500] for w in why_o[:4] + why_c[:3]]), key, tags)
+
+    def shrink_candidates(self, case):
+        return iter(())
